@@ -42,10 +42,14 @@ class Vector3(Vector):
                 return arg.flatten_numer(Vector3, recursive=recursive)
 
             # For any suitable Qube, move numerator items to the denominator
+            derivs = arg._derivs_
             if arg.rank > 1 and arg._numer_[0] == 3:
+                derivs = {}
+                for (key, deriv) in arg._derivs_.items():
+                    derivs[key] = deriv.split_items(1, Vector3)
                 arg = arg.split_items(1, Vector3)
 
-            arg = Vector3(arg, derivs=arg._derivs_)
+            arg = Vector3(arg, derivs=derivs)
             if recursive:
                 return arg
 
